@@ -623,9 +623,14 @@ impl FdsCase {
             }
         };
         let pre = simk::drain_events();
-        simk::purge_closed();
+        simk::purge_closed_except(self.rfd);
+        let held_main = simk::hold_fd(self.rfd);
         let rings_before: Vec<i32> = simk::with_sim(|s| s.rings.keys().copied().collect());
-        let mut ring_b = match Ring::config().with_submission_queue_size(8).with_direct_descriptors(4).build() {
+        let built_b = Ring::config().with_submission_queue_size(8).with_direct_descriptors(4).build();
+        if held_main {
+            simk::release_fd(self.rfd);
+        }
+        let mut ring_b = match built_b {
             Ok(r) => r,
             Err(e) => return Some(vec![format!("sigdirect setup-failed {e}")]),
         };
@@ -728,9 +733,14 @@ impl FdsCase {
             return None;
         }
         let pre = simk::drain_events();
-        simk::purge_closed();
+        simk::purge_closed_except(self.rfd);
+        let held_main = simk::hold_fd(self.rfd);
         let rings_before: Vec<i32> = simk::with_sim(|s| s.rings.keys().copied().collect());
-        let mut ring_b = match Ring::config().with_submission_queue_size(8).with_direct_descriptors(4).build() {
+        let built_b = Ring::config().with_submission_queue_size(8).with_direct_descriptors(4).build();
+        if held_main {
+            simk::release_fd(self.rfd);
+        }
+        let mut ring_b = match built_b {
             Ok(r) => r,
             Err(e) => return Some(vec![format!("tryclone setup-failed {e}")]),
         };
